@@ -416,6 +416,19 @@ fn capi_child(case: &str) {
                 let ok2 = c::biscuit_builder_add_fact(Some(&mut b), good.as_ptr());
                 println!("add_fact(valid) -> {}", ok2);
             }
+            "deep_nesting_source" => {
+                // Datalog source with deeply nested collections / parentheses
+                let depth: usize = std::env::var("VERIF_DEPTH").ok().and_then(|d| d.parse().ok()).unwrap_or(100_000);
+                let kind = std::env::var("VERIF_KIND").unwrap_or_else(|_| "array".to_string());
+                let src = match kind.as_str() {
+                    "array" => format!("f({}1{})", "[".repeat(depth), "]".repeat(depth)),
+                    "parens" => format!("check if {}true{}", "(".repeat(depth), ")".repeat(depth)),
+                    "not" => format!("check if {}true", "!".repeat(depth)),
+                    _ => format!("check if {}1 > 0", "1 + ".repeat(depth)),
+                };
+                let r = biscuit_auth::Biscuit::builder().code(&src).map(|_| ());
+                println!("parsed: {}", r.is_ok());
+            }
             "capi_authorizer_builder_build_null" => {
                 // a NULL builder must come back through the error channel
                 let r = c::authorizer_builder_build_unauthenticated(None);
